@@ -98,7 +98,7 @@ CHECKS = {
     'C19': dict(cat='model_checking', engine='E3',
                 technique='own symbolic executor over the clang-14 LLVM IR of the real adjacency sources (z3 bit-vectors, region memory, path forking); set/multiset oracles decided by z3 per path; memory safety and leak checks by the executor',
                 text='For every shape profile in the bound (domain/image sizes, degree sequence) all index values, permutation entries and orders are symbolic 64-bit values; the real Graph render (all 8 types, single and composite), sort, degree, permuted copy, Permutation (all representations, apply, inverse, concat), Coloring (+partition graph) and CuthillMcKee (all root/sort/reverse options) code is executed symbolically on every feasible path; each access is bounds/liveness checked, heap must be freed, and z3 decides the definition of the operation.',
-                note='Trusted: clang-14 -O1 IR, irsym executor and memory model (concrete co-execution against an ASan native build each run), z3 5.1.0, oracles. Colouring/CM on symmetric relations. Three defects found and fixed (sort_indices on index-free graph, CM root selection x2). Outside: sizes beyond the bound, DynamicGraph.',
+                note='Trusted: clang-14 -O1 IR, irsym executor and memory model (concrete co-execution against an ASan native build each run), z3 5.1.0, oracles. Colouring/CM on symmetric relations. Four defects found and fixed (sort_indices on index-free graph, CM root selection x2, CM overwrite on multi-component graphs). Outside: sizes beyond the bound, DynamicGraph.',
                 ref='3/C19'),
     'C20': dict(cat='model_checking', engine='E3',
                 technique='own IR symbolic executor on the real MemoryPool / Container / DenseVector / SparseMatrixCSR / SparseLayout code with symbolic operation codes; region liveness checks + z3 reference-count oracle',
